@@ -187,4 +187,21 @@ theorem sortDeps_error_kinds (av : List Name) (els : List Dep) (e : Err)
     simp [hc, bind, Except.bind] at h
     exact Or.inr (sortLoop_error_circular els _ av els none [] e h)
 
+/-- whatever `sortDeps` returns normally is a valid schedule of all components -/
+theorem sortDeps_ok_sched (av : List Name) (els : List Dep)
+    (hnd : (els.map (·.name)).Nodup) (o : List Name) (h : sortDeps av els = .ok o) :
+    o.Perm (els.map (·.name)) ∧ Sched els av o ∧ Sortable av els := by
+  unfold sortDeps at h
+  cases hc : checkSortable av els with
+  | error e => simp [hc, bind, Except.bind] at h
+  | ok u =>
+    simp [hc, bind, Except.bind] at h
+    obtain ⟨tail, hot, hsched, hperm⟩ := sortLoop_sound els _ av els none [] o (fun d hd => hd) h
+    have hperm' : o.Perm (els.map (·.name)) := by simpa [hot] using hperm
+    have hsched' : Sched els av o := by simpa [hot] using hsched
+    refine ⟨hperm', hsched', ⟨fun n => o.idxOf n, ?_⟩⟩
+    intro d hd r hr
+    have hmem : d.name ∈ o := hperm'.mem_iff.mpr (List.mem_map.mpr ⟨d, hd, rfl⟩)
+    exact sched_rank hnd av o hsched' d hd hmem r hr
+
 end Mxl
